@@ -34,6 +34,7 @@ type C11Case struct {
 	BodyEnd bool          `json:"body_end,omitempty"` // gzip/zlib: the source stops at the end of the DEFLATE body (trailer not delivered): all data is due, io.EOF is not
 	Multi   bool          `json:"multi,omitempty"`    // gzip: default multistream mode instead of Multistream(false)
 	Synth   *synth.Stream `json:"synth,omitempty"`    // flate only: a synthesised stream (sync points = its empty stored blocks) instead of a written member
+	Steps   bool          `json:"steps,omitempty"`    // request/response: the source delivers up to the first flush point, and the next piece only when asked again - which may happen only after everything before has been handed out
 }
 
 var errSourceBroke = errors.New("source broke after the flush point")
@@ -55,6 +56,15 @@ func drawC11(t *rapid.T) C11Case {
 	for i := 0; i < nf; i++ {
 		fl = append(fl, rapid.IntRange(0, n).Draw(t, "fpos"))
 	}
+	if n >= 65536 && rapid.Bool().Draw(t, "flushatwindow") {
+		// a flush point where the decoder's 64 KiB output window is exactly (or nearly) full: the sync
+		// marker is then split between what the decoder already holds and unread input
+		at := rapid.SampledFrom([]int{65536, 65536 + 32768, 131072}).Draw(t, "fwin") + rapid.IntRange(-6, 6).Draw(t, "fwind")
+		if at >= 0 && at <= n {
+			fl[0] = at
+		}
+	}
+	c.Steps = rapid.IntRange(0, 2).Draw(t, "steps") == 0
 	c.M.Ops = buildOps(n, fl, gen.DrawCuts(t, n, "w"), nil)
 	if rapid.IntRange(0, 3).Draw(t, "atend") == 0 {
 		c.Point = -1
@@ -192,6 +202,31 @@ func checkC11(c C11Case) (labels []string, nontrivial bool, err error) {
 	}
 	D := data[:want]
 	src := &iox.Gated{Data: z, Release: release, Sizes: c.Chunks, Mode: c.After, Err: errSourceBroke, Junk: 0x55}
+	// request/response delivery: every flush point before the final one is a gate of its own
+	handed := 0 // bytes returned by completed Read calls
+	var stepErr error
+	if c.Steps && !c.BodyEnd {
+		var steps [][2]int
+		for _, p := range points {
+			if p[0] < release {
+				steps = append(steps, p)
+			}
+		}
+		steps = append(steps, [2]int{release, want})
+		cur := 0
+		src.Release = steps[0][0]
+		src.OnOver = func() bool {
+			if handed < steps[cur][1] && stepErr == nil {
+				stepErr = fmt.Errorf("with %d of the compressed bytes delivered (a sync-flush point; they encode %d bytes) and %d bytes handed out, the Reader demanded more input", steps[cur][0], steps[cur][1], handed)
+			}
+			if cur+1 < len(steps) {
+				cur++
+				src.Release = steps[cur][0]
+				return true
+			}
+			return false
+		}
+	}
 	var under io.Reader = src
 	if c.BufSize > 0 {
 		under = newBufio(src, c.BufSize)
@@ -215,6 +250,9 @@ func checkC11(c C11Case) (labels []string, nontrivial bool, err error) {
 		r = zr
 	default:
 		r = fflate.NewReader(under)
+	}
+	if src.Over != 0 {
+		return nil, false, fmt.Errorf("%s: the constructor demanded input beyond the %d delivered bytes (a sync-flush point or the end of the stream): it would block", c.Pkg, release)
 	}
 	what := fmt.Sprintf("%s Reader, source delivered %d of %d compressed bytes (up to %s), which encode %d bytes", c.Pkg, release, len(z), map[bool]string{true: "the end of the stream", false: "a sync-flush point"}[atEnd], want)
 	var out []byte
@@ -243,6 +281,10 @@ func checkC11(c C11Case) (labels []string, nontrivial bool, err error) {
 			}
 		}
 		out = append(out, p[:n]...)
+		handed = len(out)
+		if stepErr != nil {
+			return nil, false, fmt.Errorf("%s (request/response delivery): %v", what, stepErr)
+		}
 		if bad >= 0 {
 			return nil, false, fmt.Errorf("%s: output is not the data written before that point (first difference at %d)", what, bad)
 		}
@@ -276,6 +318,9 @@ func checkC11(c C11Case) (labels []string, nontrivial bool, err error) {
 	labels = append(labels, "pkg:"+c.Pkg, fmt.Sprintf("after:%d", c.After), fmt.Sprintf("bufio:%d", c.BufSize), "enc:"+c.M.Enc)
 	if c.Synth != nil {
 		labels = append(labels, "synthesised-stream")
+	}
+	if src.OnOver != nil {
+		labels = append(labels, "request-response-delivery")
 	}
 	if c.BodyEnd {
 		labels = append(labels, "prefix-ends-at-body-end-before-trailer")
